@@ -15,8 +15,8 @@ for f in k['fixed']:
             seen.add((m.group(1),c)); print(m.group(1),c)
 PY
 while read prop c; do
-  [ "$prop" = C20 ] && prop=C16
-  [ "$prop" = C12 ] && continue
+  true
+  true
   wt=/tmp/rv-$c
   git -C /repo worktree add --detach $wt HEAD -q 2>/dev/null
   if ! git -C $wt revert --no-commit $c >/dev/null 2>&1; then echo "$c $prop conflict"; git -C /repo worktree remove --force $wt; continue; fi
